@@ -783,6 +783,21 @@ def run(ctx: Any, prog: Program) -> None:
         ctx.check('C13.Z20', not miss20, vpk, node20, f'FileInfo.write can leave at line {node20.lineno} having stored the new checksum but not {miss20}: the entry keeps the value of the previous contents there (a stale tail '
                   'length makes read() append old bytes; verify() fails and the stale entry is written to the directory)', func='FileInfo.write', text=f'exit at `{U(node20)[:30]}` has the whole placement')
 
+    # ---- Z21: the tree length in the header ends where the directory tree ends ---------------------------------------------------------------
+    # Data kept in the _dir file itself sits at `header + tree_length + offset`.  write_dirfile measures the tree (`file.tell() - header_len`)
+    # before it appends the footer data; measured afterwards the length includes the footer, and every other reader of the format looks for the
+    # data (and the end of the tree) in the wrong place - only this library's own loader, which stops at the terminator, would not notice.
+    ctx.rule('C13.Z21', 'write_dirfile measures the tree length before the footer data is written', floor=1)
+    wd21 = vpk.methods('VPK')['write_dirfile']
+    meas21 = [a for a in ast.walk(wd21) if isinstance(a, ast.Assign) and isinstance(a.value, ast.BinOp) and isinstance(a.value.op, ast.Sub) and isinstance(a.value.left, ast.Call)
+              and isinstance(a.value.left.func, ast.Attribute) and a.value.left.func.attr == 'tell']
+    foot21 = [c for c in ast.walk(wd21) if isinstance(c, ast.Call) and isinstance(c.func, ast.Attribute) and c.func.attr == 'write' and c.args and (dotted(c.args[0]) or '').endswith('footer_data')]
+    ctx.shape('C13.Z21', len(meas21) == 1 and len(foot21) == 1, vpk, wd21, f'write_dirfile: {len(meas21)} measurements `file.tell() - <header>` and {len(foot21)} writes of footer_data found (one each expected)', func='VPK.write_dirfile',
+              text='tree length measured before the footer')
+    if len(meas21) == 1 and len(foot21) == 1:
+        ctx.check('C13.Z21', meas21[0].lineno < foot21[0].lineno, vpk, meas21[0], f'write_dirfile computes `{U(meas21[0])[:50]}` after `{U(foot21[0])[:40]}`: the tree length stored in the header then includes the footer data, '
+                  'so data stored in the directory file is looked for beyond its real position by any reader that follows the format', func='VPK.write_dirfile', text='tree length measured before the footer')
+
     # ---- Z15: file data in a numbered archive is read at the offset recorded for it ---------------------------------------------------------
     # Overwrites and removals leave dead blocks in the numbered archives and new data is appended, so the live blocks are neither contiguous
     # nor in directory order: a read of `<entry>.arch_len` bytes is right only directly after `seek(<entry>.offset)` on the same file object.
@@ -901,6 +916,7 @@ def run(ctx: Any, prog: Program) -> None:
         ctx.shape('C13.Z6', False, vpk, w, 'preload slice bound not recognised', func='FileInfo.write', text='preload bounded to 16 bits')
 
 MUTANTS = [
+    {'id': 'tree_length_measured_after_footer', 'file': 'vpk.py', 'find': "            # Calculate the length of the header..\n            dir_len = file.tell() - header_len\n", 'replace': "", 'extra': [{'file': 'vpk.py', 'find': "            file.write(self.footer_data)\n", 'replace': "            file.write(self.footer_data)\n            dir_len = file.tell() - header_len\n"}], 'expect': 'C13.Z21', 'refuse_ok': True, 'note': 'round 14'},
     {'id': 'arch_len_kept_when_tail_vanishes', 'file': 'vpk.py', 'find': "        self.arch_len = len(arch_data)\n\n        if self.arch_len:", 'replace': "        if arch_data:\n            self.arch_len = len(arch_data)\n\n        if arch_data:", 'expect': 'C13.Z20', 'note': 'round 13'},
     {'id': 'offset_from_a_block_table', 'file': 'vpk.py', 'find': "                self.offset = len(self.vpk.footer_data)\n", 'replace': "                self.offset = self.vpk._fileinfo.get('blocks', {}).get(new_checksum, len(self.vpk.footer_data))\n", 'expect': 'C13.Z19', 'note': 'round 12'},
     {'id': 'archive_index_carried_over', 'file': 'vpk.py', 'find': "                        if info.arch_index is None:\n                            arch_ind = DIR_ARCH_INDEX\n                        else:\n                            arch_ind = info.arch_index\n", 'replace': "                        if info.arch_index is not None:\n                            arch_ind = info.arch_index\n", 'extra': [{'file': 'vpk.py', 'find': "            key_getter = operator.itemgetter(0)\n", 'replace': "            key_getter = operator.itemgetter(0)\n            arch_ind = DIR_ARCH_INDEX\n"}], 'expect': 'C13.Z18', 'note': 'round 12'},
